@@ -42,6 +42,7 @@ where
             AnsCoder::new()
         }
     };
+    let mut clone_via: crate::report::CloneVia<AnsCoder<M::W, S, Vec<M::W>>> = crate::report::CloneVia::new();
     let mut coder = mk(&init);
     let mut twin = mk(&init);
     let mut stack: Vec<(usize, usize)> = Vec::new();
@@ -139,8 +140,12 @@ where
                         }
                     }
                     7 => {
-                        let c2 = coder.clone();
-                        drop(c2);
+                        // a clone (by clone() or by clone_from() onto an older copy) finishes to the same words
+                        let c2 = clone_via.clone_of(run, rng, &coder);
+                        let got = c2.into_compressed().unwrap_infallible();
+                        if got != would {
+                            fail!("C08/ans-clone-differs", "a clone finishes to {} words, the coder itself to {}", got.len(), would.len());
+                        }
                     }
                     _ => {
                         let _ = coder.pos();
@@ -198,10 +203,16 @@ where
     run.count(row_name(w, s), 1);
     run.count("range_cases", 1);
     let n = rng.usize_in(0, if run.small { 25 } else if run.thorough() { 400 } else { 120 });
-    let mut enc: Enc<M, S> = RangeEncoder::new();
+    // 1/4 of the encoders start on a sink that already holds words (documented use of with_backend)
+    let prefix: Vec<M::W> = if rng.chance(1, 4) { crate::props::c01::gen_words(rng, 4, false) } else { Vec::new() };
+    if !prefix.is_empty() {
+        run.count("range_encoders_on_prefilled_sink", 1);
+    }
+    let mut enc: Enc<M, S> = if prefix.is_empty() { RangeEncoder::new() } else { RangeEncoder::with_backend(prefix.clone()) };
     let mut msg = Msg::<M> { zoo: Vec::new(), syms: Vec::new() };
     let mut edges = Edges::default();
     let cfg = DriveCfg { n, steer_16: if rng.bool() { 12 } else { 2 }, max_n_symbols: if run.small { 8 } else { 40 }, end_near_16: 2 };
+    let mut clone_via: crate::report::CloneVia<Enc<M, S>> = crate::report::CloneVia::new();
     let mut inspections = 0u64;
     let mut inverted_inspections = 0u64;
     let mut empty_inspections = 0u64;
@@ -230,7 +241,9 @@ where
                     }
                 }
                 1 => {
-                    let k = i.min(rng.usize_in(0, 6));
+                    // (over a pre-filled sink the temporary decoder starts at the sink's first word,
+                    // i.e. not at this message: then only its creation and disposal are exercised)
+                    let k = if prefix.is_empty() { i.min(rng.usize_in(0, 6)) } else { 0 };
                     let mut d = e.decoder();
                     for (j, &(mi, sym)) in msg.syms.iter().enumerate().take(k) {
                         match msg.zoo[mi].range_decode(&mut d) {
@@ -254,8 +267,11 @@ where
                     }
                 }
                 4 => {
-                    let c = e.clone();
-                    drop(c);
+                    let c = clone_via.clone_of(run, rng, e);
+                    let got: Vec<M::W> = c.into_compressed().unwrap_infallible();
+                    if got != would {
+                        bad = Some(format!("a clone finishes to {:?}, the encoder itself to {:?}", words_u128(&got), words_u128(&would)));
+                    }
                 }
                 _ => {
                     let _ = e.pos();
@@ -293,7 +309,7 @@ where
     }
     edges.publish(run);
     // uninspected twin
-    let mut twin: Enc<M, S> = RangeEncoder::new();
+    let mut twin: Enc<M, S> = if prefix.is_empty() { RangeEncoder::new() } else { RangeEncoder::with_backend(prefix.clone()) };
     for &(mi, sym) in &msg.syms {
         msg.zoo[mi].range_encode(&mut twin, sym).expect("twin encode");
     }
